@@ -84,6 +84,11 @@ def make_event(kind, n, addr_n):
     if kind == "templated_partial":
         # a templated event may leave out a block altogether (simulators do for empty Variable blocks)
         return {"message": "AgentGroupDataUpdate", "body": {"AgentData": [{"AgentID": UUID(int=n)}]}}
+    if kind == "plain_list":
+        # a non-templated event whose body is not a map
+        return {"message": "FooEvent%d" % (n % 3), "body": [n, "e%d" % n]}
+    if kind == "plain_str":
+        return {"message": "FooEvent%d" % (n % 3), "body": "e%d" % n}
     if kind == "establish":
         return {"message": "EstablishAgentCommunication", "body": {"agent-id": UUID(int=1), "sim-ip-and-port": "%s:%d" % (ip, port), "seed-capability": seed}}
     if kind == "enable":
@@ -143,6 +148,33 @@ class Run:
                 self.region.eq_manager.inject_event(dict(expected))
             self.pending_inj.append(expected)
         self.nontrivial = True
+        return []
+
+    def inject_other(self):
+        """an addon queues an event for ANOTHER region of the session (a neighbour that is not being polled here): it is that region's"""
+        others = [r for r in self.sess.regions if r is not self.region]
+        if not others:
+            others = [self.sess.register_region(circuit_addr=("10.78.0.1", 15000), seed_url="https://sim-other.example.com/cap/seed-other", handle=(7000 << 32) | 3000)]
+            self.n_regions0 += 1
+        r = others[self.inj_n % len(others)]
+        if r.circuit is None:
+            r.circuit = ProxiedCircuit(("127.0.0.1", 1), r.circuit_addr, MockTransport())
+        self.inj_n += 1
+        r.eq_manager.inject_event({"message": "ForTheNeighbour", "body": {"inj_n": self.inj_n}})
+        self.count("injected_elsewhere")
+        self.nontrivial = True
+        return []
+
+    def cycle_announced(self, addr_n):
+        """the connection to an announced neighbour comes up and is torn down again (DisableSimulator): it stays the same region"""
+        addr = (_ip(addr_n), 14000 + addr_n)
+        regs = [r for r in self.sess.regions if r.circuit_addr == addr]
+        if not regs:
+            return None
+        r = regs[0]
+        r.circuit = ProxiedCircuit(("127.0.0.1", 1), r.circuit_addr, MockTransport())
+        r.mark_dead()
+        self.count("announced_torn_down")
         return []
 
     def teardown(self):
@@ -290,6 +322,10 @@ class Run:
             return self.inject(op[1], op[2])
         if k == "teardown":
             return self.teardown()
+        if k == "inject_other":
+            return self.inject_other()
+        if k == "cycle_announced":
+            return self.cycle_announced(op[1])
         raise ValueError(op)
 
     def close(self):
@@ -310,7 +346,7 @@ ALPHABET = [
     ("poll", [("plain", 0)], ["rewrite"], False, 200, False),
 ]
 
-EVENT = st.tuples(st.sampled_from(["plain", "plain", "templated", "templated_partial", "establish", "enable", "teleport", "crossed"]), st.integers(0, 4))
+EVENT = st.tuples(st.sampled_from(["plain", "plain", "templated", "templated_partial", "plain_list", "plain_str", "establish", "enable", "teleport", "crossed"]), st.integers(0, 4))
 DECISION = st.sampled_from(["ignore", "ignore", "swallow", "one", "yes", "raise", "rewrite"])
 OP = st.one_of(
     st.tuples(st.just("poll"), st.lists(EVENT, min_size=1, max_size=4), st.lists(DECISION, max_size=4), st.integers(0, 7).map(lambda i: {0: 1, 1: 2}.get(i, 0)),
@@ -320,6 +356,8 @@ OP = st.one_of(
     st.tuples(st.just("poll"), st.just([]), st.just([]), st.just(False), st.just(200), st.just(True)),
     st.tuples(st.just("inject"), st.integers(1, 3), st.booleans()),
     st.tuples(st.just("teardown")),
+    st.tuples(st.just("inject_other")),
+    st.tuples(st.just("cycle_announced"), st.integers(0, 4)),
 )
 
 
@@ -329,6 +367,8 @@ def run_history(ctx, ops):
     try:
         for op in ops:
             r = run.step(tuple(op))
+            if r is None:
+                continue
             res.extend(r)
             if res:
                 break
